@@ -193,7 +193,7 @@ impl Prop for Inverts {
             cx.nt("unaligned_start");
         }
         let r = catch(|| {
-            let a = mk_dt_off(ia, c.off);
+            let a = mk_dt_off_any(ia, c.off);
             let b = match (c.unit, c.sub) {
                 (0, false) => a.add_days(c.n),
                 (0, true) => a.sub_days(c.n),
